@@ -627,8 +627,12 @@ def val_line(bits, dvals) -> str:
 def impl_line(b: Built, o: Obs) -> str:
     ts = b.post_trans
     mids = sorted(o.din)
+    # data is compared only where the property speaks about it: `data_in` of a method that runs, the result a
+    # running caller receives (values on wires of bodies that do not run are don't-cares)
+    din = [(o.din[m] if o.run[m] else 0) for m in mids]
+    res = [(o.res[i] if o.run[b.body_id[id(r.caller)]] else 0) for i, r in enumerate(b.top.sites)]
     return (f"rdy={_bits(o.ready)} en={_bits(o.en)} rn={_bits([o.runnable[t] for t in ts])} run={_bits(o.run)} "
-            f"arg={_nums(o.arg)} din={_nums([o.din[m] for m in mids])} res={_nums(o.res)} "
+            f"arg={_nums(o.arg)} din={_nums(din)} res={_nums(res)} "
             f"fix=1 hx=1 cons=1 hyp=1 link=1 der=1 dflt=1")
 
 
